@@ -43,6 +43,7 @@ var cliFiles = map[string]string{
 	"annot.txt":     "ann1:A,B\nann2:C,D\n",
 	"map.txt":       "A\tTa\nB\tTb\nC\tTc\nD\tTd\nE\tTe\n",
 	"tips.txt":      "A\nB\n",
+	"multi2.nw":     "(A1:1,B:1,(C:1,D:1):1);\n(A2:1,B:1,(C:1,D:1):1);\n(A3:1,C:1,(B:1,D:1):1);\n(A4:1,C:1,(B:1,D:1):1);\n",
 	"chainmap.txt":  "A\tB\nB\tC\nC\tD\nD\tE\nE\tA\n",
 	"chainmap2.txt": "ab\tcd\ncd\troot\nroot\tab\nA\tB\nB\tA\n",
 	"tipsx.txt":     "A\nB\nC\nD\nE\nZ\nY\nX\n",
@@ -138,6 +139,10 @@ func cliTable() []cliEntry {
 		cliE("rename-chain", "rename -i @/t.nw -m @/chainmap.txt"),
 		cliE("rename-chain-internal", "rename -i @/named.nw -m @/chainmap2.txt --internal"),
 		cliE("rename-chain-revert", "rename -i @/t.nw -m @/chainmap.txt -r"),
+		cliE("rename-regexp-collisions", "rename -i @/multi2.nw -e A\\d -b A -m @/mapout.txt", "@/mapout.txt"),
+		cliE("reroot-outgroup-nonclade", "reroot outgroup -i @/t8.nw A C E"),
+		cliE("reroot-outgroup-nonclade2", "reroot outgroup -i @/t8.nw B H"),
+		cliE("reroot-outgroup-nonclade-poly", "reroot outgroup -i @/poly.nw A D"),
 		cliE("rename-auto", "rename -i @/multi.nw -a -l 3 -m @/mapout.txt", "@/mapout.txt"),
 		cliE("rename-regexp", "rename -i @/multi.nw -e ([A-C]) -b T$1 -m @/mapout.txt", "@/mapout.txt"),
 		cliE("rename-internal", "rename -i @/named.nw --internal --tips=false -a -m @/mapout.txt", "@/mapout.txt"),
